@@ -7,7 +7,7 @@ import subprocess
 
 from compose import VERIF, REPO
 
-FDIR = os.path.join(VERIF, "build", "falsify")
+FDIR = os.path.join(os.environ.get("RWS_BUILD_DIR") or os.path.join(VERIF, "build"), "falsify")
 
 
 def build():
